@@ -320,6 +320,23 @@ class ThreadSim(object):
                 if lib(a):
                     self.viol(u["i"], "unsupported-algorithm-verifies", "entity=%s SigAlg=%s" % (u["e"], uri))
                     break
+            # ... and a query that names no algorithm at all (parameter absent or blank), with a good signature by
+            # the entity's key over exactly the parameters that are there: "a missing algorithm never verifies"
+            for blank in (False, True):
+                for hcls in (hashes.SHA1, hashes.SHA256):
+                    a = dict(args)
+                    del a["SigAlg"]
+                    order2 = [u["typ"], "RelayState"]
+                    if blank:
+                        a["SigAlg"] = ""
+                        order2 = order
+                    oct2 = "&".join("%s=%s" % (k, urllib.parse.quote_plus(a[k])) for k in order2 if k in a).encode("ascii")
+                    a["Signature"] = base64.b64encode(fixture_priv(u["key"]).sign(oct2, padding.PKCS1v15(), hcls())).decode()
+                    self.count("oracle.no-alg-signed")
+                    if lib(a):
+                        self.viol(u["i"], "missing-algorithm-verifies", "entity=%s SigAlg %s, signed with %s" % (
+                            u["e"], "blank" if blank else "absent", hcls.name))
+                        break
             # a damaged or placeholder certificate is not the signer's certificate either
             own = cert_b64(u["key"])
             others = [cert_b64(k) for k in keys if k != u["key"]]
